@@ -14,6 +14,7 @@ from contracts.common import (implies, iff, forall_range, exists_range, prefix_j
                               items_of)
 from contracts import text_spec
 from contracts.text_spec import NL, is_line, is_split_nl, split_nl, lines_of, nlines, line_body
+from contracts import C14_text_value          # (the module object: this module uses C14's spec functions and their models)
 from contracts.C14_text_value import SSCI, SSI, SSC, SS, PathI, file_text, txt_of, ss_txt, freeze_events
 
 from exactly_lib.type_val_prims.matcher.matching_result import MatchingResult
